@@ -466,7 +466,18 @@ fn size_sweep() -> Vec<SeqCase> {
 }
 
 fn seq_strategy() -> impl Strategy<Value = SeqCase> {
-    (any::<bool>(), prop::bool::weighted(0.7), prop::collection::vec(op_strategy(), 1..8), arb_choices(24), prop_oneof![8 => Just(0u8), 1 => Just(1u8), 1 => Just(2u8), 1 => Just(3u8), 1 => Just(4u8)], prop_oneof![60 => Just(0u32), 1 => Just(9000u32), 1 => 5000u32..14000])
+    // now and then two consecutive sends whose payloads differ only in the sign of a zero (equal for the library's `==`,
+    // different values on the wire): the second must not go out as a copy of the first
+    let twin = prop::option::weighted(0.25, (arb_pid(), arb_value(GenCfg { depth: 2, size: 5, heavy: false, ..GenCfg::std() }), any::<bool>()));
+    let ops = (prop::collection::vec(op_strategy(), 1..8), twin).prop_map(|(mut ops, twin)| {
+        if let Some((to, x, neg_first)) = twin {
+            let zero = |neg: bool| Value::Float(if neg { (-0.0f64).to_bits() } else { 0.0f64.to_bits() });
+            ops.push(SendOp::Send { to: to.clone(), payload: Value::Tuple(vec![x.clone(), zero(neg_first)]) });
+            ops.push(SendOp::Send { to, payload: Value::Tuple(vec![x, zero(!neg_first)]) });
+        }
+        ops
+    });
+    (any::<bool>(), prop::bool::weighted(0.7), ops, arb_choices(24), prop_oneof![8 => Just(0u8), 1 => Just(1u8), 1 => Just(2u8), 1 => Just(3u8), 1 => Just(4u8)], prop_oneof![60 => Just(0u32), 1 => Just(9000u32), 1 => 5000u32..14000])
         .prop_map(|(header_mode, peer_header, ops, repr, state, huge_kib)| SeqCase { header_mode, peer_header, ops, repr, state, huge_kib })
 }
 
